@@ -148,6 +148,17 @@ def _cases_for(rng, g, tier):
                 yield _log_case(g, tip, None, x, False, 0, 0, False)
                 if rng.random() < 0.3:
                     yield _log_case(g, tip, None, x, True, 0, 0, False)
+        # one-level logs and limited logs that end or start on a merged line (a left-hand walk off
+        # the mainline: fork points of a branch of a branch must keep their dotted revno; the
+        # level filter hides revisions, the limit counts the shown ones only)
+        nested = [x for x, d, _rv, _e in ms if d >= 1]
+        for x in (nested if len(nested) <= 6 else rng.sample(nested, 6)):
+            yield _log_case(g, tip, None, x, rng.random() < 0.3, 1, 0, False)
+            yield _log_case(g, tip, None, x, False, rng.choice([1, 2]), rng.randint(1, 3), False)
+            yield _log_case(g, tip, x, None, rng.random() < 0.3, 1, rng.randint(1, 3), False)
+        if any(d >= 2 for _x, d, _rv, _e in ms):
+            for lim in (2, 3, 4, 5):
+                yield _log_case(g, tip, None, None, rng.random() < 0.3, 2, lim, False)
         # two merged revisions with the same base (the _is_obvious_ancestor shortcut)
         dotted = [(x, rv) for x, _d, rv, _e in ms if len(rv) == 3]
         same_base = [(a, b) for a, ra in dotted for b, rb in dotted if a != b and ra[0] == rb[0]]
@@ -283,9 +294,19 @@ def impl(inp):
             end_revision=None if e is None else info(br, e),
             limit=inp["limit"] or None, levels=inp["levels"],
             exclude_common_ancestry=inp["excl"])
-        gen = log._DefaultLogGenerator(br, **rq)
-        return _consume(gen.iter_log_revisions,
-                        lambda lr: [idx(lr.rev.revision_id), _revno_list(lr.revno), lr.merge_depth])
+        conv = lambda lr: [idx(lr.rev.revision_id), _revno_list(lr.revno), lr.merge_depth]  # noqa: E731
+        out = _consume(log._DefaultLogGenerator(br, **rq).iter_log_revisions, conv)
+        if inp["limit"]:
+            # the same request without the limit (for the oracle only: a limited log is a prefix of it)
+            out.append(_consume(log._DefaultLogGenerator(br, **dict(rq, limit=None)).iter_log_revisions, conv))
+        return out
+
+
+def impl_obs(inp, obs):
+    """The part of the observation the model predicts."""
+    if inp["kind"] == "log" and not isinstance(obs, Err) and len(obs) == 3:
+        return obs[:2]
+    return obs
 
 
 def _file_history(inp):
@@ -412,7 +433,8 @@ def oracle(inp, obs):
             if got != want:
                 return f"per-file log by {how} lists {got}, the revisions that touched the file are {want}"
         return None
-    items, err = obs
+    unlimited = obs[2] if len(obs) == 3 else None
+    items, err = obs[0], obs[1]
     if err is not None and str(err) == "_StartNotLinearAncestor":
         return "the internal _StartNotLinearAncestor exception escapes from the log generator"
     if err is not None and str(err) == "ValueError":
@@ -425,6 +447,12 @@ def oracle(inp, obs):
         return "a revision is listed twice"
     if inp["limit"] and len(items) > inp["limit"]:
         return "more revisions than the limit"
+    if unlimited is not None and unlimited[1] is None and err is None and items != unlimited[0][:inp["limit"]]:
+        return (f"the log limited to {inp['limit']} lists {[x[0] for x in items]}, the first {inp['limit']} entries of "
+                f"the unlimited log are {[x[0] for x in unlimited[0][:inp['limit']]]}")
+    revnos = [tuple(x[1]) for x in items if x[1] is not None]
+    if len(set(revnos)) != len(revnos):
+        return f"two listed revisions carry the same revision number: {[x[:2] for x in items]}"
     if inp["levels"] and any(x[2] >= inp["levels"] for x in items):
         return "a revision deeper than the requested levels is listed"
     ms = ref_merge_sort(g, tip)
